@@ -260,3 +260,60 @@ def gen_tree(rng, depth, nvars):
 
 def depth_of(t):
     return 1 + max([depth_of(s) for s in t[1:] if isinstance(s, list)] or [0])
+
+
+# ------------------------------------------------------------------ polynomial fragment, exact rational duals
+
+def gen_poly(rng, depth, nvars):
+    if depth == 0 or rng.random() < 0.2:
+        if rng.random() < 0.7:
+            return ['var', rng.randrange(nvars)]
+        fr = Fraction(rng.choice([k for k in range(-12, 13) if k]), 4)
+        return ['cst', fr.numerator, fr.denominator]
+    r = rng.random()
+    sub = lambda: gen_poly(rng, depth - 1, nvars)
+    if r < 0.55:
+        return [rng.choice(['add', 'sub', 'mul', 'mul']), sub(), sub()]
+    if r < 0.62:
+        return ['neg', sub()]
+    if r < 0.85:
+        return ['powi', sub(), rng.choice([2, 2, 3, 1])]
+    c = rng.choice([2, 4, Fraction(1, 2)])
+    c = Fraction(c)
+    return ['div', sub(), ['cst', c.numerator, c.denominator]]
+
+
+def evq(t, env, wrt):
+    """exact dual number (value, derivative) in Fractions; raises Reject when an intermediate real value is 0
+    (then binary64 complex arithmetic with a tiny step is no longer the exact dual-number arithmetic) or when
+    the numbers no longer fit comfortably in a double"""
+    k = t[0]
+    if k == 'var':
+        r = (Fraction(env[t[1]]), Fraction(1 if t[1] == wrt else 0))
+    elif k == 'cst':
+        r = (Fraction(t[1], t[2]), Fraction(0))
+    elif k == 'neg':
+        a = evq(t[1], env, wrt)
+        r = (-a[0], -a[1])
+    elif k in ('add', 'sub', 'mul', 'div'):
+        a, b = evq(t[1], env, wrt), evq(t[2], env, wrt)
+        if k == 'add':
+            r = (a[0] + b[0], a[1] + b[1])
+        elif k == 'sub':
+            r = (a[0] - b[0], a[1] - b[1])
+        elif k == 'mul':
+            r = (a[0] * b[0], a[1] * b[0] + a[0] * b[1])
+        else:
+            r = (a[0] / b[0], (a[1] * b[0] - a[0] * b[1]) / (b[0] * b[0]))
+    elif k == 'powi':
+        a, n = evq(t[1], env, wrt), t[2]
+        r = (a[0] ** n, n * a[0] ** (n - 1) * a[1])
+    else:
+        raise Reject('not polynomial')
+    for x in r:
+        if x.numerator.bit_length() > 40 or x.denominator.bit_length() > 30 or \
+                x.denominator & (x.denominator - 1):
+            raise Reject('size')
+    if r[0] == 0:
+        raise Reject('zero intermediate')
+    return r
